@@ -100,4 +100,129 @@ func init() {
 		explanation: "differential symbolic execution: an object dirtied with symbolic field values is released, re-acquired from the pool and compared field by field and by its packed bytes with a freshly constructed one, before and after a solver-chosen next use",
 		bounds:      "message, utils.Args, xfer.XferPipe, utils.ByteBuffer so far (handler contexts and sockets need the root package harness); dirty strings <= 2 bytes, <= 2 metadata pairs, next-use wire input <= 3 bytes",
 	})
+	registerCheck(&checkSpec{
+		id:    "C03",
+		dirs:  []string{"."},
+		level: "other",
+		jobs: func(tier string) []job {
+			var js []job
+			add := func(a ...int) { js = append(js, J(".", "VX_C03_Frame", a...)) }
+			// mtypeMode, methodMode, unknownH, outcome, vetoStage, writeFail, nBody, pipe
+			for _, oc := range []int{0, 1, 2, 3, 4} {
+				add(1, 0, 0, oc, 0, 0, 1, 0)
+			}
+			add(0, 0, 0, 0, 0, 0, 1, 0) // every message type
+			add(0, 1, 0, 0, 0, 0, 0, 1)
+			add(9, 0, 0, 0, 0, 0, 1, 0)
+			for _, mm := range [][]int{{1, 0}, {1, 1}, {2, 0}} {
+				add(1, mm[0], mm[1], 0, 0, 0, 1, 1)
+			}
+			for vs := 1; vs <= 3; vs++ {
+				add(1, 0, 0, 0, vs, 0, 1, 1)
+				add(3, 0, 0, 0, vs, 0, 1, 0)
+			}
+			for wf := 1; wf <= 2; wf++ {
+				add(1, 0, 0, 0, 0, wf, 1, 0)
+				add(1, 0, 0, 3, 0, wf, 1, 0)
+			}
+			add(3, 0, 0, 2, 0, 0, 1, 0)
+			add(3, 1, 1, 0, 0, 0, 1, 0)
+			if tier == "thorough" {
+				for _, mm := range [][]int{{0, 0}, {1, 0}, {1, 1}, {2, 0}} {
+					for vs := 0; vs <= 3; vs++ {
+						for _, oc := range []int{0, 1, 2, 3, 4} {
+							for wf := 0; wf <= 2; wf++ {
+								add(0, mm[0], mm[1], oc, vs, wf, 2, 1)
+							}
+						}
+					}
+				}
+			}
+			return js
+		},
+		assumptions: append(append([]string{}, stdAssumptions...), "handlers are installed through SubRouter.reg with a harness HandlersMaker (reflection-based controller extraction not executed)", "scripted in-memory net.Conn (stub S-CONN); goroutine pool = plain spawn; spawned handler runs when the reader blocks"),
+		explanation: "the real read loop, binding, routing, plugin stages, handler dispatch, reply construction and session.write are executed symbolically for one received frame with symbolic type/seq/body/plugin and handler statuses; handler outcome, vetoing stage, route kind and transport failure are enumerated shape parameters",
+		bounds:      "one frame per path; body <= 2 bytes; raw protocol; plain-bytes bodies; timeouts (context/session age) disabled",
+	})
+	c02jobs := func(tier string) []job {
+		var js []job
+		add := func(a ...int) { js = append(js, J(".", "VX_C02_Replies", a...)) }
+		// seqMode, codecMode, statusMode, nBody, resultKind, cut, nMeta
+		add(0, 1, 0, 1, 0, 0, 0) // symbolic seq: correlation
+		add(0, 1, 1, 1, 0, 0, 1)
+		add(1, 1, 0, 2, 0, 0, 1)
+		add(1, 0, 0, 1, 0, 0, 0)
+		add(1, 0, 0, 1, 1, 0, 0) // non-bytes result, nil/unknown codec
+		add(1, 3, 0, 1, 1, 0, 0)
+		add(2, 1, 1, 0, 0, 0, 0)
+		add(3, 1, 0, 1, 0, 0, 0)
+		for _, cut := range []int{1, 3, 4, 5, 9, 14, 18} {
+			add(1, 1, 0, 2, 0, cut, 0)
+		}
+		if tier == "thorough" {
+			for cut := 1; cut <= 24; cut++ {
+				add(1, 1, 0, 2, 0, cut, 1)
+				add(0, 0, 1, 1, 0, cut, 0)
+			}
+			add(0, 0, 1, 2, 0, 0, 1)
+			add(0, 0, 0, 2, 1, 0, 0)
+		}
+		return js
+	}
+	registerCheck(&checkSpec{
+		id: "C02", dirs: []string{"."}, level: "other", jobs: c02jobs,
+		assumptions: append(append([]string{}, stdAssumptions...), "scripted in-memory net.Conn (stub S-CONN); the remote peer's reply is an arbitrary well-framed raw-protocol frame (symbolic seq/status/codec/body) or a truncation of one; library body codecs (json/xml/form/protobuf/thrift) excluded"),
+		explanation: "the real AsyncCall, read loop, bindReply/handleReply, readDisconnected and callCmd.done/cancel are executed symbolically with two pending calls, one hostile reply frame and connection loss; completion is observed through Done() and the completion channel; a goroutine left blocked is a violation",
+		bounds:      "2 pending calls, 1 reply frame (whole or cut at listed byte offsets), then EOF; reply body <= 2 bytes; sequential schedule (spawned handler runs when the reader blocks)",
+	})
+	rootAssume := append(append([]string{}, stdAssumptions...), "scripted in-memory net.Conn (stub S-CONN); goroutine pool = plain spawn; handlers installed through SubRouter.reg with a harness HandlersMaker", "schedules: deterministic run-to-block order plus the interleavings scripted by the harness (handler blocked / Close in progress / reader at EOF); not all interleavings")
+	registerCheck(&checkSpec{
+		id: "C08", dirs: []string{"."}, level: "other",
+		jobs: func(tier string) []job {
+			js := []job{J(".", "VX_C08_GracefulClose", 0, 1), J(".", "VX_C08_GracefulClose", 1, 1), J(".", "VX_C08_GracefulClose", 2, 1), J(".", "VX_C02_CloseThenLoss", 1), J(".", "VX_C02_CloseThenLoss", 0)}
+			if tier == "thorough" {
+				js = append(js, J(".", "VX_C08_GracefulClose", 0, 3), J(".", "VX_C08_GracefulClose", 1, 3), J(".", "VX_C08_GracefulClose", 2, 0))
+			}
+			return js
+		},
+		assumptions: rootAssume,
+		explanation: "the real Close/closeLocked, wait groups, read loop, readDisconnected, handleCall/writeReply and session.write are executed with a handler that is entered and blocked, a local Close in progress and (variant) the reader reaching EOF meanwhile; the order of the reply write and the socket close is observed on the scripted connection",
+		bounds:      "1 in-flight handler, 1 outstanding call, scripted interleavings (3 variants); handler durations finite",
+	})
+	registerCheck(&checkSpec{
+		id: "C01", dirs: []string{"socket", "."}, level: "other",
+		jobs: func(tier string) []job {
+			js := []job{
+				J("socket", "VX_C01_BodyStableAcrossFrames", 2, 1, 0, 0), J("socket", "VX_C01_BodyStableAcrossFrames", 1, 2, 1, 0), J("socket", "VX_C01_BodyStableAcrossFrames", 2, 2, 0, 1),
+				J(".", "VX_C02_Replies", 0, 1, 0, 1, 0, 0, 1), J(".", "VX_C02_Replies", 0, 1, 1, 2, 0, 0, 0),
+				J(".", "VX_C03_Frame", 1, 0, 0, 0, 0, 0, 2, 1), J(".", "VX_C03_Frame", 3, 0, 0, 0, 0, 0, 2, 0),
+				J("socket", "VX_C20_Message", 1, 1, 3, 1),
+			}
+			if tier == "thorough" {
+				js = append(js, J("socket", "VX_C01_BodyStableAcrossFrames", 3, 3, 0, 9), J(".", "VX_C02_Replies", 0, 0, 1, 2, 0, 0, 1))
+			}
+			return js
+		},
+		assumptions: rootAssume,
+		explanation: "non-interference decomposed: (a) reply correlation by sequence number with two pending calls and a symbolic reply (real bindReply/handleReply), (b) a received body is not aliased to the pooled receive buffer of later frames (real raw Unpack, pooled buffers reused), (c) the handler sees exactly the frame's body and the reply carries the handler's result (real handle/handleCall), (d) recycled messages carry nothing over",
+		bounds:      "2 pending calls, 2 frames, body <= 3 bytes; concurrency of writers and sequence allocation not yet covered (sequential schedules)",
+	})
+	registerCheck(&checkSpec{
+		id: "C04", dirs: []string{"socket", "."}, level: "other",
+		jobs: func(tier string) []job {
+			js := []job{J("socket", "VX_C04_ResetLeavesSharedStatus", 1)}
+			js = append(js, c02jobs("quick")[:8]...)
+			for _, oc := range []int{0, 1, 2, 3, 4} {
+				js = append(js, J(".", "VX_C03_Frame", 1, 0, 0, oc, 0, 0, 1, 0))
+			}
+			js = append(js, J(".", "VX_C03_Frame", 1, 1, 0, 0, 0, 0, 1, 0), J(".", "VX_C03_Frame", 1, 2, 0, 0, 0, 0, 1, 0), J(".", "VX_C03_Frame", 1, 1, 1, 0, 0, 0, 1, 0), J(".", "VX_C03_Frame", 1, 0, 0, 0, 2, 0, 1, 0))
+			if tier == "thorough" {
+				js = append(js, c02jobs("thorough")...)
+			}
+			return js
+		},
+		assumptions: rootAssume,
+		explanation: "three links on real code: server side (status of the reply as a function of handler outcome / framework rule), raw wire (status round trip, shared with C05), client side (callCmd status from the reply's status and the decode result); statuses symbolic",
+		bounds:      "raw protocol only; library body codecs excluded (decode failure is produced by an unregistered codec id or the nil codec)",
+	})
 }
